@@ -624,6 +624,15 @@ class LAFacade(types.ModuleType):
         return out
 
     @staticmethod
+    def lstsq(a, b, rcond=None):
+        """numpy.linalg.lstsq: concrete data -> numpy; symbolic data -> the harness-provided stand-in LSTSQ_HOOK[0] (P3)."""
+        if LSTSQ_HOOK[0] is not None:
+            return LSTSQ_HOOK[0](a, b, rcond)
+        if _has_sym(a) or _has_sym(b):
+            raise Unsupported('least-squares solve on symbolic data without a harness stand-in')
+        return _np.linalg.lstsq(_tofloat(_np.asarray(a)), _tofloat(_np.asarray(b)), rcond=rcond)
+
+    @staticmethod
     def norm(x, ord=None, axis=None, **kw):
         if not _has_sym(x):
             return _np.linalg.norm(_tofloat(_np.asarray(x)) if isinstance(x, _np.ndarray) or isinstance(x, (list, tuple)) else x, ord, axis, **kw)
@@ -650,6 +659,7 @@ class LAFacade(types.ModuleType):
         raise Unsupported('norm ord=%r' % (ord,))
 
 
+LSTSQ_HOOK = [None]
 _LA = LAFacade()
 
 
@@ -704,6 +714,10 @@ def install(extra=None, silence=True):
 
 
 def uninstall():
+    LSTSQ_HOOK[0] = None
+    ml = sys.modules.get('lift.mlstubs')
+    if ml is not None:
+        ml.MSE_HOOK[0] = None
     while _installed:
         d, name, orig, had = _installed.pop()
         if had:
